@@ -182,6 +182,21 @@ macro_rules! ed_proto {
     }};
 }
 
+// What downstream code relies on besides the round trips: the error types can be boxed as `dyn Error + Send + Sync`
+// (anyhow, `?` into Box<dyn Error + Send + Sync>, results returned from threads or held across .await) in EVERY
+// configuration - a feature that adds a non-Send payload to an error enum breaks code that compiled without it.
+#[cfg(any(feature = "core", feature = "repo_default", feature = "v1_local", feature = "v2_local", feature = "v3_local", feature = "v4_local", feature = "v1_public", feature = "v2_public", feature = "v3_public", feature = "v4_public"))]
+fn error_types_are_send_sync() {
+    fn is<T: std::error::Error + Send + Sync + 'static>() {}
+    is::<rusty_paseto::core::PasetoError>();
+    #[cfg(any(feature = "generic", feature = "repo_default"))]
+    {
+        is::<rusty_paseto::generic::GenericBuilderError>();
+        is::<rusty_paseto::generic::GenericParserError>();
+        is::<rusty_paseto::generic::PasetoClaimError>();
+    }
+}
+
 fn main() {
     #[cfg(feature = "v1_local")]
     local_proto!("v1_local", V1, noassert);
